@@ -94,7 +94,16 @@ fn batch_values(cli: &str, items: &[(usize, String, bool)]) -> Vec<(usize, Vec<S
     let f1 = dir.join("p1.blots");
     let f2 = dir.join("p2.blots");
     std::fs::write(&f1, &prog1).unwrap();
-    let (c1, out1, err1) = run(cli, &[f1.display().to_string()], None);
+    // every other batch travels through `-o FILE`, the file already holding an older, longer result
+    let seq = SEQ.load(std::sync::atomic::Ordering::SeqCst);
+    let (c1, out1, err1) = if seq % 2 == 0 {
+        let fo = dir.join("out.json");
+        std::fs::write(&fo, format!("{{\"stale\": \"{}\"}}\n", "x".repeat(prog1.len() * 4 + 4000))).unwrap();
+        let (c, so, se) = run(cli, &["-o".to_string(), fo.display().to_string(), f1.display().to_string()], None);
+        (c, std::fs::read_to_string(&fo).unwrap_or_default(), format!("{se}{so}"))
+    } else {
+        run(cli, &[f1.display().to_string()], None)
+    };
     if c1 != Some(0) {
         for (i, _, _) in items { problems.push((*i, vec![format!("first program failed (exit {:?}): {}", c1, err1.chars().chain(out1.chars()).take(200).collect::<String>())])); }
         return problems;
